@@ -223,8 +223,8 @@ func checkC10(r *Run) {
 	r5 := r.Rule("R-C10-5", "the deleting signaller look-ups are called only from the reader goroutine's serve")
 	r6 := r.Rule("R-C10-6", "the id counter is accessed only through sync/atomic")
 	r7 := r.Rule("R-C10-7", "a variable captured by a goroutine closure is not written after that goroutine may have started (outside the goroutine itself)")
-	r1.Floor(25)
-	r3.Floor(9)
+	r1.Floor(15)
+	r3.Floor(6)
 	c.ruleCapturedVars(r7)
 	la := c.locks()
 	accs := c.collectAccesses()
